@@ -847,6 +847,9 @@ func run(r *hk.Run) {
 	encCase := func(stream string, m msgT, mv []*ie, wf bool) {
 		obj := m.New()
 		setMsg(obj, mv)
+		// the model sees the message the Go struct actually holds (a generated Len that does not fit
+		// the struct's uint8 Len field is truncated by the assignment, array contents are padded)
+		mv = getMsg(obj)
 		cls, out := encodeObj(m.msgInfo, obj, nil)
 		id := r.NextID()
 		obs := "EErr"
